@@ -48,6 +48,9 @@ type Converter struct {
 	Methods  []*Method
 
 	Location string
+
+	// outputPackageSet is true when output:package was configured explicitly.
+	outputPackageSet bool
 }
 
 func (c *Converter) typeForMethod() types.Type {
@@ -119,6 +122,13 @@ func resolveOutputPackage(ctx *context, c *Converter) {
 	targetPackage, err := resolvePackage(c.FileName, c.Package, c.OutputFile)
 	if err != nil {
 		return
+	}
+
+	if c.typ == nil && !c.outputPackageSet && targetPackage != c.Package {
+		// goverter:variables default to the package of the variables. When output:file moves the
+		// generated file into another directory the package has to be inferred from there.
+		c.OutputPackagePath = ""
+		c.OutputPackageName = ""
 	}
 
 	if c.OutputPackagePath == "" {
@@ -203,6 +213,7 @@ func parseConverterLine(ctx *context, c *Converter, value string) (err error) {
 			return fmt.Errorf("unsupported format for goverter:converter")
 		}
 	case "output:package":
+		c.outputPackageSet = true
 		c.OutputPackageName = ""
 		var pkg string
 		pkg, err = parse.String(rest)
